@@ -68,6 +68,78 @@ def symbols(obj):
             res.append((name, size, sec))
     return res
 
+# C library functions that keep state in a hidden object of the PROCESS (POSIX: "need not be thread-safe"), or
+# change process-wide state.  A reference to one of them from a library object becomes a row "libc:<function>"
+# of the statics table and needs a classification like any other shared object.
+LIBC_HIDDEN_STATE = set("""
+asctime basename catgets crypt ctime dirname dlerror drand48 erand48 jrand48 lcong48 lrand48 mrand48 nrand48 seed48 srand48
+ecvt fcvt gcvt encrypt setkey endgrent getgrent setgrent endpwent getpwent setpwent getgrgid getgrnam getpwnam getpwuid
+gethostbyaddr gethostbyname gethostent getnetbyaddr getnetbyname getnetent getprotobyname getprotobynumber getprotoent
+getservbyname getservbyport getservent getlogin getopt getopt_long getdate getenv putenv setenv unsetenv clearenv
+gmtime localtime hcreate hdestroy hsearch inet_ntoa l64a a64l lgamma lgammaf lgammal localeconv nl_langinfo setlocale
+ptsname ttyname rand srand random srandom initstate setstate readdir strerror strsignal strtok system tmpnam tempnam mktemp
+wcstombs mbstowcs wctomb mbtowc mblen tzset mktime umask chdir fchdir chroot setuid setgid seteuid setegid signal sigaction
+getmntent fgetgrent fgetpwent getutent getutid getutline pututline getutxent getutxid getutxline pututxline
+""".split())
+# restartable conversions: hidden state only when the caller passes a null state pointer (last argument)
+LIBC_STATE_ARG = {"mbrtowc": 3, "wcrtomb": 2, "mbrlen": 2, "mbsrtowcs": 3, "wcsrtombs": 3, "mbsnrtowcs": 4, "wcsnrtombs": 4,
+                  "mbrtoc16": 3, "c16rtomb": 2, "mbrtoc32": 3, "c32rtomb": 2}
+
+def undefined_refs(obj):
+    res = set()
+    for l in objdump(["-t", obj]).split("\n"):
+        if "*UND*" in l:
+            res.add(l.split()[-1].split("@")[0])
+    return res
+
+def call_args(text, pos):
+    """arguments of the call whose '(' is at text[pos]; None when unbalanced"""
+    depth, cur, args, i = 0, "", [], pos
+    while i < len(text):
+        ch = text[i]
+        if ch == "(":
+            depth += 1
+            if depth > 1:
+                cur += ch
+        elif ch == ")":
+            depth -= 1
+            if depth == 0:
+                args.append(cur.strip())
+                return args
+            cur += ch
+        elif ch == "," and depth == 1:
+            args.append(cur.strip()); cur = ""
+        else:
+            cur += ch
+        i += 1
+    return None
+
+def null_state_calls(src):
+    """names f of LIBC_STATE_ARG called in the C source file with a null state argument"""
+    try:
+        text = open(src, errors="replace").read()
+    except OSError:
+        return set()
+    text = re.sub(r"/\*.*?\*/", " ", text, flags=re.S)
+    text = re.sub(r"//[^\n]*", " ", text)
+    res = set()
+    for f, k in LIBC_STATE_ARG.items():
+        for m in re.finditer(r"\b%s\s*\(" % f, text):
+            a = call_args(text, m.end() - 1)
+            if a is None or len(a) <= k:
+                continue
+            if re.fullmatch(r"(\(\s*(void|mbstate_t)\s*\*\s*\)\s*)?(NULL|0|nullptr)", a[k]):
+                res.add(f)
+    return res
+
+def libc_rows(obj, oname):
+    und = undefined_refs(obj)
+    rows = [(oname, "libc:" + f, 0, "libc") for f in sorted(und & LIBC_HIDDEN_STATE)]
+    src = os.path.join(vlib.REPO, "libarchive", oname)
+    for f in sorted(null_state_calls(src) & und):
+        rows.append((oname, "libc:%s(NULL)" % f, 0, "libc"))
+    return rows
+
 def collect(builddir):
     objs = sorted(glob.glob(os.path.join(builddir, "libarchive", "CMakeFiles", "archive_static.dir", "*.o")))
     if not objs:
@@ -87,6 +159,7 @@ def collect(builddir):
             seen[base] = seen.get(base, 0) + 1
             uniq = base if seen[base] == 1 else "%s@%d" % (base, seen[base])
             table.append((oname, uniq, size, sec))
+        table += libc_rows(o, oname)
     return sorted(table), len(objs)
 
 def coq_str(s):
